@@ -120,6 +120,11 @@ func (c02) Plan(tier string, seed int64) []core.Scenario {
 	for i := range out {
 		out[i].Seed = seed*999983 + int64(i)
 	}
+	// reverse calls are calls too: answers of handlers that belong to an old connection must not resolve the
+	// reverse calls of the re-established one (ids restart per connection); with and without keepalive
+	for i := 0; i < 4; i++ {
+		out = append(out, core.Scenario{Kind: "stale-reverse-answer", Seed: seed*999983 + 5000 + int64(i), N: map[string]int{"fk": i % 2, "old": 1 + i%3, "noping": i / 2}, S: map[string]string{}})
+	}
 	// single-stall pair enumeration on a healthy connection (calls judged here, streams in C07)
 	out = append(out, planStallPairs(tier, seed, "calls")...)
 	return out
@@ -142,6 +147,8 @@ func (p c02) Run(sc core.Scenario) core.Result {
 		p.bigMix(sc, r)
 	case "stallpair":
 		runStallPair(sc, r)
+	case "stale-reverse-answer":
+		c16{}.staleReverseAnswer(sc, r)
 	}
 	return r.Result()
 }
